@@ -3,9 +3,10 @@
 spec: ScoreRefine.tla - exact dyadic cases (UBI = 2^S.D.M, g = UB(h + d/64)), loop body as an action, expectations
 (n, sum of squared errors, R, H, X = sum (64h+d) h^T, det H) as integers.  Mode A: every emitted case is executed on
 cImageD11.score / score_and_refine / refine_assigned and the Python references indexing.calc_drlv2 / refine /
-refinegrains.refine(triclinic), also tiled across the 4096 OpenMP chunk size; counts must be
+indexer.refine / refinegrains.refine(triclinic: its count, and its matrix whenever the exact refined matrix provably
+re-selects the same peaks with the same hkl), also tiled across the 4096 OpenMP chunk size; counts must be
 equal, the refined matrix must equal inverse(R H^-1) formed in exact fractions, singular normal equations must
-leave the matrix bit-for-bit unchanged.
+leave the matrix bit-for-bit unchanged (regular normal equations with a non-invertible fitted UB: nothing demanded).
 
 Scale: two TLC runs per tier.  The main run (ScoreRefine_q/_t.cfg) enumerates every peak list of the 10-peak pool at
 S = 0; the scale run (ScoreRefine_sq/_st.cfg) enumerates the scale family SCALES (isotropic cells 1 A .. 4096 A,
@@ -47,14 +48,17 @@ def fmul(a, b):
 
 
 def expected_ubi(R, H):
-    """inverse(R H^-1) exactly (R a matrix of Fractions); "singular" when the normal equations are singular (the
-    property: matrix unchanged), "degenerate" when H is regular but the fitted UB = R H^-1 is not invertible (the
-    property does not say what is returned then: nothing is demanded of the matrix)"""
-    hi = frac_inv(H)
-    if hi is None:
+    """inverse(R H^-1) = H R^-1 exactly, R = (integer matrix Rnum, e) standing for Rnum * 2^-e; "singular" when the
+    normal equations are singular (the property: matrix unchanged), "degenerate" when H is regular but the fitted
+    UB = R H^-1 is not invertible (the property does not say what is returned then: nothing is demanded of the matrix)"""
+    Rnum, e = R
+    if det_int(H) == 0:
         return "singular"
-    ubi = frac_inv(fmul(R, hi))
-    return "degenerate" if ubi is None else ubi
+    ri = frac_inv(Rnum)
+    if ri is None:
+        return "degenerate"
+    s = F(2) ** e
+    return [[s * x for x in row] for row in fmul(H, ri)]
 
 
 def close(a, e, rel=1e-9):
@@ -68,7 +72,8 @@ def reltol(H, R):
     """comparison tolerance for the fitted matrix: 1e-9 relative, widened for ill-conditioned normal equations
     (binary64 solves lose about cond * 1e-16; wrong formulas are off by O(1))"""
     Hf = np.array(H, float)
-    Rf = np.array(R, float)
+    Rf = np.array([[float(x) for x in row] for row in R[0]])     # the condition number does not depend on the factor 2^-e
+    Rf = Rf / max(1.0, np.abs(Rf).max())
     try:
         c = np.linalg.cond(Hf) * max(1.0, np.linalg.cond(Rf))
     except Exception:
@@ -102,6 +107,9 @@ class Routes(object):
         self.c = cImageD11
         self.indexing = indexing
         self.refinegrains = refinegrains
+        with contextlib.redirect_stdout(io.StringIO()):
+            self.rg = refinegrains.refinegrains(tolerance=0.1, latticesymmetry=refinegrains.triclinic)
+        self.ix = indexing.indexer()           # indexer.refine reads self.gv, self.ra (ring assignment), self.hkl_tol
 
 
 def adj_int(m):
@@ -148,9 +156,10 @@ class Cell(object):
         return float(np.ldexp(f, -self.emax))
 
     def R_from_X(self, X):
-        """R = UB.X/64 as Fractions (the specification's law Covariant at this instance's scale)"""
-        s = F(2) ** (-self.emax)
-        return [[s * sum(self.Mi[i][k] * self.W[k] * int(X[k][j]) for k in range(3)) for j in range(3)] for i in range(3)]
+        """R = UB.X/64 (the specification's law Covariant at this instance's scale) as (integer matrix, emax):
+        R = matrix * 2^-emax"""
+        return ([[sum(self.Mi[i][k] * self.W[k] * int(X[k][j]) for k in range(3)) for j in range(3)] for i in range(3)],
+                self.emax)
 
 
 def scaled_case(case, hs):
@@ -183,15 +192,34 @@ def scaled_case(case, hs):
 
 
 def sum_outer(cell, pk, key):
-    """the property's definition, literally: R = sum g h^T over the peaks flagged `key`, as exact Fractions"""
+    """the property's definition, literally: R = sum g h^T over the peaks flagged `key`, exactly, as
+    (integer matrix, emax)"""
     R = [[0] * 3 for _ in range(3)]
     for p in pk:
         if p[key]:
+            g, h = p["gnum"], p["h"]
             for i in range(3):
                 for j in range(3):
-                    R[i][j] += p["gnum"][i] * int(p["h"][j])
+                    R[i][j] += g[i] * int(h[j])
+    return (R, cell.emax)
+
+
+def same_selection(eu, cell, pk, tol64):
+    """True when the exact refined matrix eu indexes every selected peak with its original hkl and selects exactly the
+    originally selected peaks, no squared error within 1e-6 (relative) of tol^2"""
     s = F(2) ** (-cell.emax)
-    return [[s * x for x in row] for row in R]
+    t2 = F(tol64 * tol64, 4096)
+    for p in pk:
+        hk = [sum(eu[i][k] * p["gnum"][k] for k in range(3)) * s for i in range(3)]
+        ih = [int(np.floor(x + F(1, 2))) for x in hk]
+        e2 = sum((hk[i] - ih[i]) ** 2 for i in range(3))
+        if abs(e2 - t2) <= t2 / 1000000:
+            return False
+        if (e2 < t2) != bool(p["sel"]):
+            return False
+        if p["sel"] and ih != [int(x) for x in p["h"]]:
+            return False
+    return True
 
 
 def judge(case, rt, reps=1, perturb=None, S=None):
@@ -216,15 +244,13 @@ def judge(case, rt, reps=1, perturb=None, S=None):
     Rl = sum_outer(cell, pk, "lab")
     if R != cell.R_from_X(case["X"]) or Rl != cell.R_from_X(case["Xl"]):
         raise common.MachineryError("R = UB.X/64 fails at S=%s: %s" % (cell.S, case))
-    if "R" in case and pk and "g512" in pk[0]:
-        c0 = Cell(case, [0, 0, 0])
+    if "R" in case and "g512" in pk[0] and not any(cell.S):
+        sh = 1 << (9 - cell.emax)              # emax <= 9 at S = 0 (D <= 8): num * 2^-emax = g512 / 512
         for p in pk:
-            if [F(v, 512) for v in p["g512"]] != [F(v, 1 << c0.emax) for v in
-                                                 c0.gnum([64 * int(p["h"][i]) + int(p["d"][i]) for i in range(3)])]:
+            if [v * sh for v in p["gnum"]] != [int(v) for v in p["g512"]]:
                 raise common.MachineryError("g-vector formula differs from the specification's G512: %s" % (p,))
-        for key in ("R", "Rl"):
-            if [[F(v, 512) for v in r] for r in case[key]] != c0.R_from_X(case["X" if key == "R" else "Xl"]):
-                raise common.MachineryError("specification's %s differs from UB.X/64" % key)
+        if [[v * sh for v in r] for r in R[0]] != case["R"] or [[v * sh for v in r] for r in Rl[0]] != case["Rl"]:
+            raise common.MachineryError("specification's R differs from UB.X/64: %s" % (case,))
     # --- the construction itself: UBI.g = h + d/64 exactly in binary64
     hk = gv1 @ ubi.T
     want = np.array([p["h"] for p in pk], float) + np.array([p["d"] for p in pk], float) / 64.0
@@ -249,12 +275,12 @@ def judge(case, rt, reps=1, perturb=None, S=None):
     exp_mean = (case["ss"] / 4096.0 / case["n"]) if case["n"] else 0.0
     if abs(s2 - exp_mean) > 1e-12 * max(1.0, exp_mean):
         probs.append("score_and_refine: mean squared error %r, definition %r" % (s2, exp_mean))
-    R = [[x * reps for x in row] for row in R]
-    H = [[x * reps for x in row] for row in case["H"]]
+    R = ([[x * reps for x in row] for row in R[0]], R[1])
+    H = [[int(x) * reps for x in row] for row in case["H"]]
     eu = expected_ubi(R, H)
     if perturb == "matrix" and not isinstance(eu, str):
-        eu = [[x * (1 + (F(1, 1000) if (i, j) == (0, 1) else 0)) + (F(1, 1000) * eu[0][0] if (i, j) == (0, 1) else 0)
-               for j, x in enumerate(row)] for i, row in enumerate(eu)]
+        big = max(abs(x) for row in eu for x in row)
+        eu = [[x + (big / 1000 if (i, j) == (0, 1) else 0) for j, x in enumerate(row)] for i, row in enumerate(eu)]
     if perturb == "unchanged" and not isinstance(eu, str):
         u = ubi.copy()           # what a kernel that wrongly takes the "singular" branch hands back
     if eu == "singular":
@@ -274,8 +300,8 @@ def judge(case, rt, reps=1, perturb=None, S=None):
     exp3 = (case["ssl"] / 4096.0 / case["nl"]) if case["nl"] else 0.0
     if abs(s3 - exp3) > 1e-12 * max(1.0, exp3):
         probs.append("refine_assigned: mean squared error %r, definition %r" % (s3, exp3))
-    Rl = [[x * reps for x in row] for row in Rl]
-    Hl = [[x * reps for x in row] for row in case["Hl"]]
+    Rl = ([[x * reps for x in row] for row in Rl[0]], Rl[1])
+    Hl = [[int(x) * reps for x in row] for row in case["Hl"]]
     eul = expected_ubi(Rl, Hl)
     if eul == "singular":
         if not np.array_equal(u3, ubi):
@@ -295,10 +321,21 @@ def judge(case, rt, reps=1, perturb=None, S=None):
                     probs.append("indexing.refine raised %r on a regular case" % (ex,))
         if ur is not None and regular and not close(ur, eu, reltol(H, R)):
             probs.append("indexing.refine: %s differs from inverse(R H^-1)" % np.asarray(ur).tolist())
+        # the indexer's own copy of the reference (peaks must carry a ring assignment)
+        rt.ix.gv, rt.ix.ra, rt.ix.hkl_tol = gv, np.zeros(len(gv), int), tol
+        try:
+            with contextlib.redirect_stdout(io.StringIO()), contextlib.redirect_stderr(io.StringIO()):
+                ui = rt.ix.refine(ubi.copy())
+        except Exception as ex:              # noqa
+            ui = None
+            if regular:
+                probs.append("indexer.refine raised %r on a regular case" % (ex,))
+        if ui is not None and regular and not close(ui, eu, reltol(H, R)):
+            probs.append("indexer.refine: %s differs from inverse(R H^-1)" % np.asarray(ui).tolist())
         # refinegrains.refine with triclinic symmetry = two passes of score_and_refine; first pass result is judged
         try:
-            rg = rt.refinegrains.refinegrains(tolerance=tol, latticesymmetry=rt.refinegrains.triclinic)
-            rg.gv = gv
+            rg = rt.rg
+            rg.tolerance, rg.gv, rg.npks, rg.avg_drlv2 = tol, gv, None, None
             with contextlib.redirect_stdout(io.StringIO()):
                 m = rg.refine(ubi.copy())
             # after the second pass the count refers to the refined matrix; recompute its definition
@@ -309,12 +346,12 @@ def judge(case, rt, reps=1, perturb=None, S=None):
                 n_ref = int((rt.indexing.calc_drlv2(u1, gv) < tol * tol).sum())
                 if rg.npks != n_ref:
                     probs.append("refinegrains.refine: npks=%d, reference count for the first-pass matrix %d" % (rg.npks, n_ref))
-                # the matrix it returns is the fit over the peaks the first-pass matrix selects; when those are the
-                # peaks selected at the start, fitting again changes nothing beyond rounding: compare with the definition
-                sel0 = np.array([bool(p["sel"]) for p in pk])
-                if np.array_equal(rt.indexing.calc_drlv2(np.array([[float(x) for x in r] for r in eu]), gv) < tol * tol, sel0) \
-                        and not close(m, eu, max(1e-6, reltol(H, R))):
-                    probs.append("refinegrains.refine: returned matrix %s differs from inverse(R H^-1)" % np.asarray(m).tolist())
+                # the matrix it returns is the fit over the peaks (and hkl) the first-pass matrix selects; when these
+                # are, with a margin, the peaks and hkl of the start (decided in exact fractions for the exact
+                # first-pass matrix), the second fit solves the same normal equations: the definition again
+                if same_selection(eu, cell, pk, case["tol"]) and not close(m, eu, max(1e-7, reltol(H, R))):
+                    probs.append("refinegrains.refine: returned matrix %s differs from inverse(R H^-1) = %s" % (
+                        np.asarray(m).tolist(), [[float(x) for x in r] for r in eu]))
         except Exception as ex:              # noqa
             probs.append("refinegrains.refine raised %r" % (ex,))
     return probs
@@ -329,7 +366,47 @@ def report(chk, probs, case, reps):
                                            "(|H| entries so large that the products exceed 2^53) are not detected: matrix overwritten")
                 continue
             p = msg
-        chk.violation(p + (" [peak list tiled x%d]" % reps if reps > 1 else ""), dict(case, reps_list=[reps]))
+        S = case.get("S", [0, 0, 0])
+        tag = (" [cell scaled by 2^%s]" % (S,) if any(S) else "") + (" [hkl x%d]" % case["hscale"] if case.get("hscale") else "") \
+            + (" [peak list tiled x%d]" % reps if reps > 1 else "")
+        chk.violation(p + tag, dict(case, reps_list=[reps]))
+
+
+def load_scales(tier):
+    """the scale family of the tier's scale run, read from the .cfg / the specification's definition (one source)"""
+    import re
+    name = "SCALES_q" if tier == "quick" else "SCALES_t"
+    txt = open(os.path.join(common.SPECS, "ScoreRefine.tla")).read()
+
+    def body(nm):
+        m = re.search(r"^%s ==(.*?)(?=^[A-Za-z_0-9]+ ==|^VARIABLES)" % nm, txt, re.S | re.M)
+        if not m:
+            raise common.MachineryError("cannot find %s in ScoreRefine.tla" % nm)
+        b = re.sub(r"\\\*[^\n]*", "", m.group(1))
+        out = [tuple(int(x) for x in t) for t in re.findall(r"<<\s*(-?\d+)\s*,\s*(-?\d+)\s*,\s*(-?\d+)\s*>>", b)]
+        for other in re.findall(r"\b(SCALES_[a-z]+)\b", b):
+            out += body(other)
+        return out
+    sc = sorted(set(body(name)))
+    if len(sc) < 8:
+        raise common.MachineryError("scale family %s too small: %s" % (name, sc))
+    return sc
+
+
+def tlc_cases(chk, cfgname, label, res):
+    chk.add_tlc(label, res)
+    if res.violated:
+        raise common.MachineryError("ScoreRefine model violates %s\n%s" % (res.violated, res.stdout[-1500:]))
+    cases = []
+    bad = 0
+    for line in sorted(res.printed):      # TLC's workers print in no fixed order: sorted, a VERIF_SEED names one run
+        try:
+            cases.append(json.loads(line))
+        except ValueError:
+            bad += 1
+    if bad:
+        raise common.MachineryError("%d unparsable TLC lines" % bad)
+    return cases
 
 
 def run(tier, replay=None):
@@ -337,13 +414,16 @@ def run(tier, replay=None):
     shadow = common.build_shadow("normal")
     common.use_shadow(shadow)
     rt = Routes()
-    chk.rule = ("TLC enumerates UBI = D.M (unimodular M, power-of-two D), tolerance in {1,8,16,32}/64 and every peak list "
-                "of length <= MAXPK from a pool of 10 exactly representable peaks (on-lattice, 1/64 off, exactly on the "
-                "tolerance boundary, half-integer, coplanar, |h|~100), two label patterns; each terminal state carries the "
-                "integer n, sum|d|^2, R, H, det H; non-trivial = at least one selected peak; distinct = distinct case")
-    chk.assumptions = ["binary64 arithmetic on dyadic rationals below 2^53 is exact (checked: UBI.g == h + d/64 bit for bit)",
+    chk.rule = ("TLC enumerates UBI = 2^S.D.M (unimodular M, power-of-two D, scale exponents S), tolerance in {1,8,16,32}/64 and "
+                "every peak list of length <= MAXPK: main run S = 0 and a pool of 10 exactly representable peaks (on-lattice, "
+                "1/64 off, exactly on the tolerance boundary, half-integer, coplanar, |h|~100), two label patterns; scale run "
+                "every S of the scale family (cells 1 A .. 4096 A, long-axis / plate cells, |g| 2^+-33, 2^+-100) and a pool of 7; "
+                "each terminal state carries the integer n, sum|d|^2, R, H, X, det H; a seeded share of the main run is "
+                "replayed at a scale of the family too; non-trivial = at least one selected peak; distinct = distinct case")
+    chk.assumptions = ["binary64 arithmetic on dyadic rationals below 2^53 is exact (checked: UBI.g == h + d/64 bit for bit, at every scale)",
                        "accuracy of the kernels on non-dyadic data is not decided by the specification",
-                       "zero-length peak lists cannot be passed through the f2py wrappers"]
+                       "zero-length peak lists cannot be passed through the f2py wrappers",
+                       "scales are powers of two between 2^-300 and 2^300 (no underflow / overflow of the 3x3 determinants)"]
     if replay:
         case = json.load(open(replay))["case"]
         jc = scaled_case(case, case["hscale"]) if case.get("hscale") else case
@@ -355,44 +435,52 @@ def run(tier, replay=None):
         chk.exhaustive = False
         return chk.finish()
 
-    cfg = os.path.join(common.SPECS, "ScoreRefine_q.cfg" if tier == "quick" else "ScoreRefine_t.cfg")
-    res = common.run_tlc("ScoreRefine", cfg, workers=16, timeout=3000, coverage=False)
-    chk.add_tlc("ScoreRefine " + tier, res)
-    if res.violated:
-        raise common.MachineryError("ScoreRefine model violates %s\n%s" % (res.violated, res.stdout[-1500:]))
-    cases = []
-    bad = 0
-    for line in res.printed:
-        try:
-            cases.append(json.loads(line))
-        except ValueError:
-            bad += 1
-    if bad:
-        raise common.MachineryError("%d unparsable TLC lines" % bad)
+    quick = tier == "quick"
+    cfgs = ["ScoreRefine_q.cfg" if quick else "ScoreRefine_t.cfg", "ScoreRefine_sq.cfg" if quick else "ScoreRefine_st.cfg"]
+    common.scratch()
+    from concurrent.futures import ThreadPoolExecutor
+    with ThreadPoolExecutor(2) as ex:          # the two runs side by side, 8 workers each
+        rr = list(ex.map(lambda c: common.run_tlc("ScoreRefine", os.path.join(common.SPECS, c), workers=8, timeout=3000,
+                                                  coverage=False), cfgs))
+    cases = tlc_cases(chk, cfgs[0], "ScoreRefine " + tier, rr[0])
+    scases = tlc_cases(chk, cfgs[1], "ScoreRefine scales " + tier, rr[1])
+    scales = load_scales(tier)
+    seen_scales = set(tuple(c["S"]) for c in scases)
+    if seen_scales != set(scales):
+        raise common.MachineryError("scale run emitted scales %s, the specification lists %s" % (sorted(seen_scales), scales))
     rng = np.random.default_rng(common.seed())
     nsing = nref = 0
+    per_scale = {}
     t0 = time.time()
+
+    def one(case, reps, key, tagcase=None):
+        report(chk, judge(case, rt, reps), tagcase or case, reps)
+        chk.case(key, nontrivial=case["n"] > 0)
+        chk.traces += 1
+
     for idx, case in enumerate(cases):
         npk = len(case["peaks"])
         reps_list = [1]
         # tiling across the OpenMP chunk size for a seeded subset
-        if npk and rng.random() < (0.02 if tier == "quick" else 0.05):
+        if npk and rng.random() < (0.02 if quick else 0.05):
             reps_list += [4095 // npk, 4096 // npk + 1, (2 * 4096) // npk + 1]
             if tier == "thorough" and rng.random() < 0.1:
                 reps_list.append(100000 // npk)
         for reps in reps_list:
-            probs = judge(case, rt, reps)
-            report(chk, probs, case, reps)
-            chk.case((idx, reps), nontrivial=case["n"] > 0)
-            chk.traces += 1
+            one(case, reps, (idx, reps))
+        # the same case at a scale of the family (expectations are scale free: specification's law Covariant)
+        if npk and rng.random() < (0.1 if quick else 0.05):
+            sc = scales[int(rng.integers(len(scales)))]
+            one(dict(case, S=list(sc)), 1, (idx, 1, sc))
         if len(reps_list) > 1:
             # hkl up to ~1e3 and up to 1e5 peaks: sums of h_i h_j beyond 2^31 (python-integer re-evaluation of the definitions)
             big = scaled_case(case, 10)
             for reps in (1, 20000 // npk, 100000 // npk if tier == "thorough" else 30000 // npk):
-                probs = judge(big, rt, reps)
-                report(chk, probs, dict(case, hscale=10), reps)
-                chk.case((idx, reps, "h*10"), nontrivial=case["n"] > 0)
-                chk.traces += 1
+                one(big, reps, (idx, reps, "h*10"), dict(case, hscale=10))
+            # ... and long lists / large hkl at a scale of the family
+            sc = scales[int(rng.integers(len(scales)))]
+            one(dict(case, S=list(sc)), reps_list[2], (idx, reps_list[2], sc))
+            one(dict(big, S=list(sc)), 20000 // npk, (idx, 20000 // npk, "h*10", sc), dict(case, hscale=10, S=list(sc)))
         if case["detH"] == 0 and case["n"] > 0:
             nsing += 1
         elif case["n"] > 0:
@@ -401,12 +489,26 @@ def run(tier, replay=None):
             chk.sample(case)
         if len(chk.violations) > 20:
             break
+    for idx, case in enumerate(scases):
+        if len(chk.violations) > 20:
+            break
+        one(case, 1, ("s", idx, 1))
+        st = per_scale.setdefault(str(case["S"]), [0, 0])
+        if case["n"] > 0:
+            st[0 if case["detH"] == 0 else 1] += 1
+        if idx == 4000:
+            chk.sample(case)
     chk.notes["singular_nonempty_cases"] = nsing
     chk.notes["refined_cases"] = nref
+    chk.notes["per_scale_singular_regular"] = per_scale
     chk.notes["replay_s"] = round(time.time() - t0, 1)
-    if nsing < 10 or nref < 10:
-        raise common.MachineryError("vacuity: %d singular / %d regular cases" % (nsing, nref))
-    selftest(rt, cases)
+    if not chk.violations:
+        if nsing < 10 or nref < 10:
+            raise common.MachineryError("vacuity: %d singular / %d regular cases" % (nsing, nref))
+        thin = [k for k, v in per_scale.items() if v[0] < 10 or v[1] < 10]
+        if thin or len(per_scale) != len(scales):
+            raise common.MachineryError("vacuity: scales with < 10 singular / regular cases: %s" % thin)
+    selftest(rt, cases + scases)
     return chk.finish()
 
 
@@ -414,10 +516,19 @@ def selftest(rt=None, cases=None):
     rt = rt or Routes()
     if not cases:
         return
-    c = next(x for x in cases if x["n"] >= 3 and x["detH"] not in (0, 2147483647))
-    if [p for p in judge(c, rt) if not isinstance(p, tuple)]:
-        return      # the unchanged case already fails: nothing to self-test against
-    if not judge(c, rt, perturb="count"):
-        raise common.MachineryError("selftest: perturbed count accepted")
-    if not judge(c, rt, perturb="matrix"):
-        raise common.MachineryError("selftest: perturbed refined matrix accepted")
+    c = next(x for x in cases if x["n"] >= 3 and x["detH"] not in (0, 2147483647) and any(any(p["d"]) for p in x["peaks"] if p["sel"]))
+    for S in (None, [7, 7, 7], [-100, -100, -100], [0, 6, 10]):
+        if [p for p in judge(c, rt, S=S) if not isinstance(p, tuple)]:
+            return      # the unchanged case already fails: nothing to self-test against
+        if not judge(c, rt, perturb="count", S=S):
+            raise common.MachineryError("selftest: perturbed count accepted at scale %s" % (S,))
+        if not judge(c, rt, perturb="matrix", S=S):
+            raise common.MachineryError("selftest: perturbed refined matrix accepted at scale %s" % (S,))
+        if not judge(c, rt, perturb="unchanged", S=S):
+            raise common.MachineryError("selftest: a kernel returning its input on regular equations accepted at scale %s" % (S,))
+        # the law the scale replays rest on, in exact fractions: inverse(R H^-1) = 64 H X^-1 . UBI
+        cell = Cell(c, S)
+        eu = expected_ubi(cell.R_from_X(c["X"]), c["H"])
+        xi = frac_inv(c["X"])
+        if isinstance(eu, str) or xi is None or eu != fmul(fmul([[64 * F(v) for v in r] for r in c["H"]], xi), cell.ubi_frac):
+            raise common.MachineryError("selftest: inverse(R H^-1) != 64 H X^-1 UBI at scale %s" % (S,))
